@@ -133,6 +133,9 @@ pub enum Signer {
     /// the claimed node's OWN key (never generated for attack scripts: this is the node itself speaking
     /// from a second endpoint, used by by-construction scenarios of multi-homed peers)
     Genuine,
+    /// the id-signature of the newest genuine handshake packet the claimed node sent to V, as anybody
+    /// on the path can read it (the handshake header is only masked with the destination's id)
+    Observed,
     /// the attacker's key j, with bytes appended to the 64-byte signature (recovery ids 0 / 1 / 27 / 28
     /// as other signature formats carry them, two zero bytes, an arbitrary byte)
     AdvExtended(u8, u8),
@@ -233,6 +236,12 @@ pub enum Op {
     UndecodableMessage { peer: u8, to: u8, variant: u8 },
     /// V submits one request each to `n` contacts at distinct addresses where nobody listens
     SubmitToMany { n: u16 },
+    /// node 0's application bans / un-bans honest peer `peer` (node id and, with `ip`, its IP address) in
+    /// the process-wide ban list
+    Ban { peer: u8, ip: bool, on: bool },
+    /// a WHOAREYOU for the sel-th request node `node` has in flight, echoing that request's current
+    /// nonce and coming from the address the request went to (whoever sends it)
+    WhoAreYouForInflight { node: u8, sel: u16, handshaken_only: bool },
 }
 
 #[derive(Clone, Copy, Debug, PartialEq, Eq, Hash, Serialize, Deserialize)]
@@ -459,6 +468,8 @@ async fn spawn_handler(key_idx: u32, enr: &Enr, addr: SocketAddr, cfg: &WireConf
 impl World {
     pub async fn new(cfg: WireConfig) -> World {
         hv::reset_snapshots();
+        // the ban list is process-wide: every case starts with an empty one
+        *discv5::verif::PERMIT_BAN_LIST.write() = Default::default();
         let n = 1 + cfg.n_peers as usize;
         let mut nodes = Vec::new();
         for i in 0..n {
